@@ -8,6 +8,7 @@ Everything that is *data* in the module is read from the source with `ast` (the 
   the flags written in the `re.match` call (regex text -> `Re` through tools/gen/relib.py),
 * the slice bound and the needle of `_getTextType`,
 * `defaultencodings` of `encodingByMediaType`,
+* the shape and the four literals of `_MetaHTMLParser.handle_starttag`, the codec of the five bytes guards,
 * `bomDict`, the two `read` sizes, `xmlDeclPattern` (split at the named group `encstr` into the part before
   the group, the group body and the part after it) and the default `'utf-8'` of `detectXMLEncoding`.
 
@@ -234,6 +235,77 @@ def read_sniffer(tree):
     return bom, reads[0][1], reads[1][1], pattern, flags, default
 
 
+META_TEMPLATE = """
+class _MetaHTMLParser(html.parser.HTMLParser):
+    content_type = None
+
+    def handle_starttag(self, tag, attrs):
+        if tag == 'S' and not self.content_type:
+            atts = {a.lower(): (v or 'S').lower() for a, v in attrs}
+            if atts.get('S', 'S').strip() == 'S':
+                self.content_type = atts.get('S')
+"""
+
+
+class _Lits(ast.NodeTransformer):
+    """replaces every string literal by 'S' and remembers them in source order"""
+    def __init__(self):
+        self.lits = []
+
+    def visit_Constant(self, n):
+        if isinstance(n.value, str):
+            self.lits.append(n.value)
+            return ast.copy_location(ast.Constant(value='S'), n)
+        return n
+
+
+def _shape(cls):
+    cls.body = strip_doc(cls.body)
+    for n in cls.body:
+        if isinstance(n, ast.FunctionDef):
+            n.body = strip_doc(n.body)
+    t = _Lits()
+    cls = t.visit(cls)
+    return ast.dump(cls), t.lits
+
+
+def read_meta_parser(tree):
+    """_MetaHTMLParser: the class must have exactly the shape of META_TEMPLATE; the literals are data:
+    -> (tag, equiv key, equiv value, content key)"""
+    cls = [n for n in tree.body if isinstance(n, ast.ClassDef) and n.name == '_MetaHTMLParser']
+    need(len(cls) == 1, 'class _MetaHTMLParser')
+    want, _ = _shape(ast.parse(META_TEMPLATE).body[0])
+    got, lits = _shape(cls[0])
+    need(got == want, '_MetaHTMLParser does not have the modelled shape (content_type = None; handle_starttag: '
+         'tag test and not self.content_type; dict of lower-cased names and `(v or \'\').lower()` values; '
+         'stripped http-equiv compared; content taken)')
+    need(len(lits) == 6 and lits[1] == '' and lits[3] == '', '_MetaHTMLParser: the two defaults are empty strings')
+    return lits[0], lits[2], lits[4], lits[5]
+
+
+def read_decode_sites(tree):
+    """every `if isinstance(X, bytes): X = X.decode(LIT)` of the three consumers of a document -> [(function, X, LIT)]"""
+    out = []
+    for fname in ('_getTextType', 'getMetaInfo', 'detectXMLEncoding'):
+        f = func(tree, fname)
+        for n in ast.walk(f):
+            if isinstance(n, ast.If) and isinstance(n.test, ast.Call) and is_name(n.test.func, 'isinstance') \
+                    and len(n.test.args) == 2 and is_name(n.test.args[1], 'bytes'):
+                need(isinstance(n.test.args[0], ast.Name) and not n.orelse and len(n.body) == 1, 'bytes guard in ' + fname)
+                x = n.test.args[0].id
+                a = n.body[0]
+                ok = (isinstance(a, ast.Assign) and len(a.targets) == 1 and is_name(a.targets[0], x)
+                      and isinstance(a.value, ast.Call) and isinstance(a.value.func, ast.Attribute)
+                      and a.value.func.attr == 'decode' and is_name(a.value.func.value, x)
+                      and len(a.value.args) == 1 and not a.value.keywords)
+                need(ok, '`%s = %s.decode(<codec>)` expected at line %d' % (x, x, a.lineno))
+                out.append((fname, x, const_str(a.value.args[0])))
+    need([(f, x) for f, x, _ in out] == [('_getTextType', 'text'), ('getMetaInfo', 'text'), ('detectXMLEncoding', 'fp'),
+                                          ('detectXMLEncoding', 'head'), ('detectXMLEncoding', 'buffer')],
+         'the five bytes guards (text, text, fp, head, buffer): %r' % (out,))
+    return out
+
+
 def split_pattern(pattern, flags, group='encstr'):
     """the pattern as (before, group body, after), each a relib AST. Requires `^` first (then `search` on a
     pattern without re.M is `match` at offset 0) and the named group at top level."""
@@ -303,6 +375,8 @@ def generate(repo):
     defaults = read_defaults(tree)
     bom, read1, read2, pattern, flags, default = read_sniffer(tree)
     parts = split_pattern(pattern, flags)
+    meta_lits = read_meta_parser(tree)
+    decode_sites = read_decode_sites(tree)
     # self-check of the split against CPython's re (group span)
     rx = re.compile(pattern, flags)
     for t in SELF_CHECK:
@@ -403,6 +477,18 @@ def generate(repo):
     w('def declPre : Re := %s' % relib.tolean(parts[0]))
     w('def declGrp : Re := %s' % relib.tolean(parts[1]))
     w('def declPost : Re := %s' % relib.tolean(parts[2]))
+    w('')
+    w('/-! `_MetaHTMLParser.handle_starttag` (shape checked against the template of the translator; the literals are data) -/')
+    w('def metaTag : List Nat := %s  -- %r' % (lean_str(meta_lits[0]), meta_lits[0]))
+    w('def metaEquivKey : List Nat := %s  -- %r' % (lean_str(meta_lits[1]), meta_lits[1]))
+    w('def metaEquivValue : List Nat := %s  -- %r' % (lean_str(meta_lits[2]), meta_lits[2]))
+    w('def metaContentKey : List Nat := %s  -- %r' % (lean_str(meta_lits[3]), meta_lits[3]))
+    w('')
+    w('/-- the codec of every `if isinstance(X, bytes): X = X.decode(<codec>)` in the three consumers of a document -/')
+    w('def decodeCodecs : List (List Nat) := [')
+    for i, (fn, x, c) in enumerate(decode_sites):
+        w('  %s%s  -- %s: %s.decode(%r)' % (lean_str(c), ',' if i + 1 < len(decode_sites) else '', fn, x, c))
+    w(']')
     w('')
     w('end CssVerif.Gen.C20')
     return {'CssVerif/Gen/C20Tables.lean': '\n'.join(o) + '\n'}
